@@ -148,7 +148,7 @@ func RunConc(sc *ConcScenario, want Want) *ConcResult {
 	}
 	defer bridge.SetMinTableLen(32)
 
-	budget := uint64(200000)
+	budget := uint64(3000000) // watchdog only (never a verdict)
 	sim := simrt.New(simrt.Config{Seed: sc.SchedSeed, Strategy: sc.Strategy, Epoch: sc.Epoch, StepBudget: budget, Replay: sc.Replay})
 	defer sim.Close()
 	w := &World{sim: sim}
